@@ -174,7 +174,9 @@ type ctx struct {
 	ghostConst   map[string]term
 	inInv        bool
 	inMerge      bool
+	noAllocFacts bool
 	lastInst     *ssa.Function
+	lastAllocType map[string]types.Type
 	memo         map[string][]memoEntry
 	readLog      []map[string]string
 	w        *world
@@ -472,12 +474,46 @@ func ghostSort(hi heapInfo) string {
 
 // leaves enumerates the scalar leaves of a type with their key suffixes.
 func (x *ctx) readLeafHeap(st *state, l *loc, key string, s srtT) term {
+	var r term
 	if l.idx != nil {
 		a := x.arr(st, key, true, s)
-		return term{fmt.Sprintf("(select (select %s %s) %s)", a, l.base.s, l.idx.s), s}
+		r = term{fmt.Sprintf("(select (select %s %s) %s)", a, l.base.s, l.idx.s), s}
+	} else {
+		a := x.arr(st, key, false, s)
+		r = term{fmt.Sprintf("(select %s %s)", a, l.base.s), s}
 	}
-	a := x.arr(st, key, false, s)
-	return term{fmt.Sprintf("(select %s %s)", a, l.base.s), s}
+	if s == sRef && key != "Len" {
+		x.noteAllocated(st, r)
+	}
+	return r
+}
+
+// noteAllocated: a reference read from memory denotes an object that already exists (or nil).
+func (x *ctx) noteAllocated(st *state, r term) {
+	if x.noAllocFacts || len(r.s) > 400 {
+		return
+	}
+	a := x.allocArr(st)
+	st.define(or(eq(r, null), fmt.Sprintf("(select %s %s)", a, r.s)))
+}
+
+func (x *ctx) allocArr(st *state) string {
+	if a, ok := st.heap["G:allocd"]; ok {
+		return a
+	}
+	x.hinfo["G:allocd"] = heapInfo{ksorts: []srtT{sRef}, elem: sBool}
+	x.declare("G_allocd", "(Array (_ BitVec 64) Bool)")
+	return "G_allocd"
+}
+
+// markFresh: r is a new object: it was not allocated before and is from now on.
+func (x *ctx) markFresh(st *state, r term) {
+	a := x.allocArr(st)
+	st.define(not(fmt.Sprintf("(select %s %s)", a, r.s)))
+	n := x.freshName("G_allocd")
+	x.declare(n, "(Array (_ BitVec 64) Bool)")
+	st.define(fmt.Sprintf("(= %s (store %s %s true))", n, a, r.s))
+	st.heap["G:allocd"] = n
 }
 
 func (x *ctx) writeLeafHeap(st *state, l *loc, key string, v term) {
@@ -1068,6 +1104,7 @@ func (x *ctx) run(st *state, fr *frame, b *ssa.BasicBlock, idx int, prev *ssa.Ba
 					st.assume(not(eq(r, null)))
 					x.assumeFreshRef(st, r)
 					x.writeHeap(st, &loc{base: r, key: structName(t), typ: t}, structName(t), t, x.zeroVal(t))
+					x.lastAllocType[r.s] = t
 					fr.regs[in] = scalar(r)
 					delete(st.cells, id)
 					continue
@@ -1091,7 +1128,20 @@ func (x *ctx) run(st *state, fr *frame, b *ssa.BasicBlock, idx int, prev *ssa.Ba
 			}
 			fr.regs[in] = t.fields[in.Index]
 		case *ssa.MakeInterface:
-			fr.regs[in] = x.get(fr, st, in.X)
+			v := x.get(fr, st, in.X)
+			isStr := false
+			if bt, ok := in.X.Type().Underlying().(*types.Basic); ok && bt.Info()&types.IsString != 0 {
+				isStr = true
+			}
+			if v.t.s != "" && v.t.srt != sRef && !v.agg && isStr && !strings.HasPrefix(fr.fn.Name(), "Zmod_") {
+				// a non-pointer value stored in an interface: boxed by an (uninterpreted) function into a non-nil reference
+				fn := "box_" + symName(v.t.srt.name)
+				x.declareFun(fn, []srtT{v.t.srt}, sRef)
+				r := term{fmt.Sprintf("(%s %s)", fn, v.t.s), sRef}
+				st.define(not(eq(r, null)))
+				v = scalar(r)
+			}
+			fr.regs[in] = v
 		case *ssa.ChangeInterface:
 			fr.regs[in] = x.get(fr, st, in.X)
 		case *ssa.TypeAssert:
@@ -1131,9 +1181,20 @@ func (x *ctx) run(st *state, fr *frame, b *ssa.BasicBlock, idx int, prev *ssa.Ba
 		case *ssa.Slice:
 			fr.regs[in] = x.sliceOp(st, fr, in)
 		case *ssa.Range:
-			fr.regs[in] = x.get(fr, st, in.X)
+			m := x.get(fr, st, in.X)
+			if mt, ok := in.X.Type().Underlying().(*types.Map); ok {
+				// a fresh iteration: nothing visited yet
+				ks, _ := x.leafSort(mt.Key())
+				key := "G:visited"
+				x.hinfo[key] = heapInfo{ksorts: []srtT{ks}, elem: sBool}
+				n := x.freshName("G_visited")
+				x.declare(n, fmt.Sprintf("(Array %s Bool)", ks.name))
+				st.define(fmt.Sprintf("(= %s ((as const (Array %s Bool)) false))", n, ks.name))
+				st.heap[key] = n
+			}
+			fr.regs[in] = m
 		case *ssa.Next:
-			x.fail("range over map/string outside the supported subset in %s (needs the pointwise rule)", fr.fn)
+			fr.regs[in] = x.mapNext(st, fr, in)
 		case *ssa.Go:
 			x.assumed["go statement not modelled (spawned goroutine body is not part of the sequential path)"] = true
 		case *ssa.Defer:
@@ -1157,6 +1218,9 @@ func (x *ctx) run(st *state, fr *frame, b *ssa.BasicBlock, idx int, prev *ssa.Ba
 			}
 			return res
 		case *ssa.Call:
+			if fr.top && fr.con != nil && len(fr.con.Sites) > 0 && x.spec == 0 {
+				x.siteAssertions(st, fr, b, in)
+			}
 			outs, inline := x.call(st, fr, in.Common(), in, in.Type())
 			if !inline {
 				continue
@@ -1361,6 +1425,7 @@ func (x *ctx) sliceOp(st *state, fr *frame, in *ssa.Slice) val {
 }
 
 func (x *ctx) assumeFreshRef(st *state, r term) {
+	x.markFresh(st, r)
 	// a freshly allocated object differs from every reference the function received
 	var names []string
 	for n := range x.params {
